@@ -5,7 +5,7 @@ stage 2  keep those the repository's own test suite does not kill (parallel scra
 stage 3  run the quick checks against every survivor (VERIF_REPO), stopping at the first check that reports a VIOLATION
 Survivors of stage 3 are either equivalent mutants or gaps in the checks; they are listed for manual triage.
 
-usage: /venv/bin/python -m mc.mutate gen | suite [N] | checks [N]      (state in /dev/shm/verif_mutate/)
+usage: /venv/bin/python -m mc.mutate gen [--since <commit>] | suite [N] | checks [N]      (state in /dev/shm/verif_mutate/)
 """
 import json
 import os
@@ -53,15 +53,31 @@ OPS = [
 ]
 
 
-def gen():
+def _added_lines(fn, since):
+    """1-based numbers of the lines of /repo/nptdms/<fn> that were added or changed after commit `since`"""
+    out = subprocess.run(['git', '-C', '/repo', 'diff', '-U0', since, 'HEAD', '--', 'nptdms/' + fn], capture_output=True, text=True,
+                         check=True).stdout
+    keep = set()
+    for m in re.finditer(r'^@@ -\S+ \+(\d+)(?:,(\d+))? @@', out, re.M):
+        a, n = int(m.group(1)), int(m.group(2) or 1)
+        keep.update(range(a, a + n))
+    return keep
+
+
+def gen(since=None):
     os.makedirs(STATE, exist_ok=True)
     muts = []
     for fn in FILES:
         path = os.path.join('/repo/nptdms', fn)
         lines = open(path).read().split('\n')
         in_doc = False
+        only = _added_lines(fn, since) if since else None
         for li, line in enumerate(lines):
             st = line.strip()
+            if only is not None and (li + 1) not in only:
+                if st.count('"""') % 2 == 1:
+                    in_doc = not in_doc
+                continue
             if st.count('"""') % 2 == 1:
                 in_doc = not in_doc
                 continue
@@ -206,5 +222,8 @@ def checks(limit=None, parallel=4):
 
 if __name__ == '__main__':
     cmd = sys.argv[1]
+    if cmd == 'gen' and len(sys.argv) > 3 and sys.argv[2] == '--since':
+        gen(sys.argv[3])
+        sys.exit(0)
     arg = int(sys.argv[2]) if len(sys.argv) > 2 else None
     {'gen': gen, 'suite': lambda: suite(arg), 'checks': lambda: checks(arg)}[cmd]()
